@@ -410,7 +410,7 @@ def check_history(h, res, replay, pairs, samples):
 
 
 # ------------------------------------------------------------------------------------------ process runs
-STALL_WINDOW, STALL_CPU = 20.0, 0.8     # seconds of wall clock, seconds of process CPU time
+STALL_WINDOW, STALL_CPU = 20.0, 0.5     # seconds of wall clock, seconds of process CPU time
 
 
 def proc_cpu(pid):
